@@ -535,7 +535,12 @@ func (e *Engine) store(st *State, p Ptr, v Value) {
 		if al.off.IsConst() {
 			k := int(al.off.val)
 			if k < 0 || k >= len(o.cells) {
-				unsup("store out of object bounds")
+				if !single {
+					// one of several targets, too small for this offset: the bounds check that precedes every
+					// indexed store has already excluded it from the path condition
+					continue
+				}
+				unsup("store out of object bounds (cell %d of %d, object %d)", k, len(o.cells), al.obj)
 			}
 			old := getPath(o.cells[k], al.path)
 			o.cells[k] = setPath(o.cells[k], al.path, e.storeInto(st, g, old, v))
